@@ -191,6 +191,11 @@ def _tracks(draw, ctx):
     phrases = [[t, min(max_tick - t, ln)] for t, ln in
                sorted(draw(st.lists(st.tuples(tick_st, st.integers(0, 2000)), max_size=2)))]
     items = G.merge_track_items(notes, phrases, [])
+    lifted = G.lift_items(draw, items, tmap["res"], one_in=10, allow64=False)
+    if lifted:
+        # the whole track moved up across 2^31 / 2^32 / 2^33 under one (the fastest) tempo
+        items, tempo, _ = lifted
+        return {"res": tmap["res"], "tempo": tempo, "items": items, "fmt": 0}
     return {"res": tmap["res"], "tempo": tmap["tempo"], "items": items,
             "fmt": draw(st.one_of(st.just(0), st.just(0), st.integers(1, 10 ** 6)))}
 
